@@ -676,3 +676,76 @@ Section Members.
       intros p Hpi. rewrite <- (Hp p Hpi). apply preflight_obj_same_id. symmetry. now apply same_spec_owner_id.
   Qed.
 End Members.
+
+(** * 8. Deletion / archival: the finalizer is held (C04) *)
+Section Held.
+  Variable force : bool.
+
+  Lemma teardown_of_sets sw mem sw1 tevs td : teardown_of force sw mem = (sw1, tevs, td) -> sw_sets sw1 = sw_sets sw.
+  Proof.
+    unfold teardown_of. destruct (os_fin mem); [|intros H; now injection H as <- _ _].
+    destruct (os_orphan mem); [intros H; now injection H as <- _ _|]. intros H.
+    now destruct (tpm_inv force _ _ _ _ _ _ _ H).
+  Qed.
+
+  Lemma update_status_find sw m sw' m' ok st :
+    find_set (sw_sets sw) (oi_kind (os_id m)) (oi_ns (os_id m)) (oi_name (os_id m)) = Some st ->
+    update_status sw m = (sw', m', ok) ->
+    find_set (sw_sets sw') (oi_kind (os_id m)) (oi_ns (os_id m)) (oi_name (os_id m)) = Some st \/
+    find_set (sw_sets sw') (oi_kind (os_id m)) (oi_ns (os_id m)) (oi_name (os_id m)) = Some (with_status st m (w_rv (sw_w sw))).
+  Proof.
+    intros Hf. unfold update_status. rewrite Hf.
+    destruct (negb _); [intros H; injection H as <- _ _; now left|].
+    destruct (status_eqb st m); intros H; injection H as <- _ _; [now left|right]. cbn [sw_sets].
+    destruct (find_set_id _ _ _ _ _ Hf) as (Hk & Hns & Hn).
+    pose proof (find_put_set (sw_sets sw) (with_status st m (w_rv (sw_w sw))) st) as Hp. cbn [os_id with_status] in Hp.
+    rewrite Hk, Hns, Hn in Hp. now apply Hp.
+  Qed.
+
+  (** Either the pass sends the finalizer removal, or the finalizer is still on the stored ObjectSet afterwards
+      and every status request of the pass carries Archived=False/ArchivalInProgress. *)
+  Lemma deletion_pass_held sw mem sw' evs r :
+    find_set (sw_sets sw) (oi_kind (os_id mem)) (oi_ns (os_id mem)) (oi_name (os_id mem)) = Some mem ->
+    os_fin mem = true ->
+    deletion_pass force sw mem = (sw', evs, r) ->
+    (exists ok, In (SMeta (MFinalizer false ok)) evs) \/
+    ((exists m', find_set (sw_sets sw') (oi_kind (os_id mem)) (oi_ns (os_id mem)) (oi_name (os_id mem)) = Some m' /\ os_fin m' = true) /\
+     (forall rv cs co rm fph ok, In (SMeta (MStatus rv cs co rm fph ok)) evs ->
+        find_cond cs CArchived = Some (mk_cond mem CArchived SFalse RArchivalInProgress))).
+  Proof.
+    intros Hf Hfin. unfold deletion_pass.
+    change (if os_fin mem then if os_orphan mem then (sw, [], TdOk true)
+            else teardown_phases_m force sw mem (as_owner mem) (rev (os_phases mem))
+            else (sw, [], TdOk true)) with (teardown_of force sw mem).
+    destruct (teardown_of force sw mem) as [[sw1 tevs] td] eqn:Etd.
+    pose proof (teardown_of_sets _ _ _ _ _ Etd) as Hsets.
+    pose proof (teardown_of_no_meta force _ _ _ _ _ Etd) as Hnm.
+    assert (Hnm' : forall ms, ~ In (SMeta ms) tevs).
+    { intros ms Hi. unfold no_meta in Hnm. rewrite Forall_forall in Hnm. exact (Hnm _ Hi). }
+    assert (Hf1 : find_set (sw_sets sw1) (oi_kind (os_id mem)) (oi_ns (os_id mem)) (oi_name (os_id mem)) = Some mem) by now rewrite Hsets.
+    set (archived := lifecycle_eqb (os_life mem) LArchived).
+    destruct td as [|[|]].
+    - intros H. injection H as <- <- _. right. split; [exists mem; auto|]. intros rv cs co rm fph ok Hi. exfalso. eapply Hnm'; eauto.
+    - rewrite Hfin.
+      destruct (patch_finalizer sw1 mem false) as [sw2 [mem2|]] eqn:Ep.
+      + destruct (negb archived).
+        * intros H. left. injection H as _ <- _. exists true. apply in_or_app. right. now left.
+        * destruct (update_status sw2 _) as [[sw3 m3] ok]. intros H. left. injection H as _ <- _. exists true.
+          apply in_or_app. left. apply in_or_app. right. now left.
+      + intros H. left. injection H as _ <- _. exists false. apply in_or_app. right. now left.
+    - destruct (negb archived) eqn:Ea.
+      + intros H. right. injection H as <- <- _. split; [exists mem; auto|]. intros rv cs co rm fph ok Hi. exfalso. eapply Hnm'; eauto.
+      + apply negb_false_iff in Ea. rewrite Ea.
+        set (mem' := set_conds mem (set_cond (os_conds mem) (mk_cond mem CArchived SFalse RArchivalInProgress))).
+        destruct (update_status sw1 (set_conds mem' (remove_cond (os_conds mem') CAvailable))) as [[sw3 m3] ok] eqn:Eu.
+        intros H. right. injection H as <- <- _. split.
+        * assert (Hf1' : find_set (sw_sets sw1) (oi_kind (os_id (set_conds mem' (remove_cond (os_conds mem') CAvailable))))
+                           (oi_ns (os_id (set_conds mem' (remove_cond (os_conds mem') CAvailable))))
+                           (oi_name (os_id (set_conds mem' (remove_cond (os_conds mem') CAvailable)))) = Some mem) by exact Hf1.
+          destruct (update_status_find _ _ _ _ _ _ Hf1' Eu) as [Hx|Hx]; eexists; (split; [exact Hx|exact Hfin]).
+        * intros rv cs co rm fph ok' Hi. apply in_app_or in Hi. destruct Hi as [Hi|[Hi|[]]]; [exfalso; eapply Hnm'; eauto|].
+          unfold status_ev, status_ev_f in Hi. injection Hi as _ <- _ _ _ _. cbn [os_conds set_conds].
+          rewrite find_remove_cond_other by discriminate. subst mem'. cbn [os_conds set_conds].
+          apply (find_set_cond_same _ (mk_cond mem CArchived SFalse RArchivalInProgress)).
+  Qed.
+End Held.
